@@ -17,6 +17,18 @@ func Run(r *core.Run) {
 	r.Assumptions = []string{"snapshots are JSON dumps of every exported field plus nil-ness of slices and maps (field order and slice order preserved)",
 		"no aliasing requirement is imposed (an out-of-window update may return the previous document object)"}
 	c01.Explore(r, c01.Options{Mutation: true, Depth: core.Pick(r, 3, 4), SigTypes: []string{"Ed25519"}})
+	// the same graph with an applier whose protocol has a non-zero genesis time (the operations still say version 0)
+	first := map[string]any{}
+	for k, v := range r.Extra {
+		first[k] = v
+	}
+	c01.Explore(r, c01.Options{Mutation: true, Depth: core.Pick(r, 2, 3), SigTypes: []string{"Ed25519"}, GenesisTime: 7})
+	for k, v := range r.Extra {
+		if old, ok := first[k]; ok {
+			r.Extra["genesis_time_7_"+k] = v
+			r.Extra[k] = old
+		}
+	}
 	c10.Explore(r, c10.Options{Mutation: true, Depth: core.Pick(r, 2, 3), Corner: false, FoldLawDepth: 0})
 	r.Require("failing-list", 3)
 }
